@@ -22,10 +22,11 @@ EXPLANATION = (
     "strategy fall back to filtering by the check itself in the element, series and dataframe strategies; (R6) a "
     "parameter the check treats as a literal is re.escape-d before being embedded in a regex, a pattern parameter is "
     "embedded grouped; (R7) in the series / dataframe strategies nothing transforms the strategy (null masks, index "
-    "attachment, mapping) after a check-based fallback filter, so the object the filter accepted is the object drawn. NOT decided: that draws validate (hypothesis search + numpy/pandas dtype conversion)."
+    "attachment, mapping) after a check-based fallback filter, so the object the filter accepted is the object drawn; (R8) "
+    "every column listed in DataFrameSchema.unique is generated unique (membership test, not a single designated column). NOT decided: that draws validate (hypothesis search + numpy/pandas dtype conversion)."
 )
 LEVEL_RULE = "one obligation per (check strategy, path) / parameter / fallback site"
-FLOORS = {"R1": 14, "R2": 30, "R3": 14, "R4": 1, "R5": 3, "R6": 2, "R7": 3}
+FLOORS = {"R1": 14, "R2": 30, "R3": 14, "R4": 1, "R5": 3, "R6": 2, "R7": 3, "R8": 1}
 
 PD = "pandera/backends/pandas/builtin_checks.py"
 ST = "pandera/strategies/pandas_strategies.py"
@@ -459,6 +460,36 @@ def r7_filter_last(ctx, stm):
         raise AnalysisError("no check-based fallback filter found in the strategies module")
 
 
+def r8_joint_unique(ctx, stm):
+    """Joint uniqueness (DataFrameSchema.unique=[...]) is generated by making *every* listed column unique; null masks are
+    applied afterwards, so relying on a single column lets duplicate rows through once that column is nulled."""
+    from ..cfg import cfg_of
+    from ..util import path_condition, show_condition
+    f = stm.functions.get("dataframe_strategy")
+    if f is None:
+        raise AnalysisError("dataframe_strategy missing")
+    uparam = "unique"
+    n = 0
+    for g in [f] + list(f.nested.values()):
+        cfg = cfg_of(g.node)
+        for s in function_stmts(g):
+            if isinstance(s, ast.Assign) and isinstance(s.targets[0], ast.Attribute) and s.targets[0].attr == "unique" \
+                    and isinstance(s.value, ast.Constant) and s.value.value is True:
+                n += 1
+                pc = path_condition(cfg, cfg.node_of(s).id, keep=lambda t, nn: uparam in t)
+                names = pc[0]
+                member = [a for a in names if a.endswith(f" in {uparam}")]
+                indexed = [a for a in names if f"{uparam}[" in a]
+                ok = bool(member) and not indexed and len(pc[1]) >= 1 and all(r[names.index(member[0])] for r in pc[1])
+                ctx.ob("R8", g, "every column listed in the schema's `unique` is generated unique", ok,
+                       f"reached under {show_condition(pc)}" if ok else
+                       f"the column is made unique only under {show_condition(pc)}: not for every member of `{uparam}`; after null masking of that "
+                       "one column the remaining columns can repeat and the drawn frame violates the joint uniqueness it was generated for",
+                       g.loc(s))
+    if n == 0:
+        ctx.ob("R8", f, "every column listed in the schema's `unique` is generated unique", False, "no column is made unique for joint uniqueness")
+
+
 def run(ctx):
     ix = ctx.ix
     stm = ix.module(ST)
@@ -585,5 +616,6 @@ def run(ctx):
                       f"returns={len(rets)}, filtering returns={len(filt)}, uses check={uses_check}, call sites={len(called)}")
         ctx.ob("R5", f, f"{fname}: checks without a strategy are enforced by filtering", ok, detail)
     r7_filter_last(ctx, stm)
+    r8_joint_unique(ctx, stm)
     ctx.assume("hypothesis strategies honour min_value/max_value/exclude_min/exclude_max, st.text sizes, from_regex and filter")
     ctx.assume("hypothesis.internal.filtering.min_len/max_len(size, x) mean len(x) >= size / len(x) <= size")
